@@ -698,6 +698,8 @@ fn run_range(sh: &Shared, slot: usize, mut start: u64, end: u64) {
             break;
         }
         if sh.stop.load(Ordering::SeqCst) {
+            // stopped early (violation cap or watchdog): cases begun since the last summary still ran
+            sh.agg.lock().unwrap().evaluations += since_summary;
             break;
         }
         // abnormal end: charge it to the open case.
